@@ -367,6 +367,8 @@ class Runner:
         mod = self.mod
         qs = mod.queries(self.tier)
         if self.only: qs = [q for q in qs if re.search(self.only, q.name)]
+        if os.environ.get('VP_SKIP_FILE'):      # resume an interrupted exploration: names listed in the file (one per line) are not run again
+            skip = set(l.strip() for l in open(os.environ['VP_SKIP_FILE'])); qs = [q for q in qs if q.name not in skip]
         for u in mod.UNITS:
             self.build_unit(u)
         if hasattr(mod, 'prepare'): mod.prepare(self)       # generated inputs (e.g. enumerated shape lists) go to the scratch directory
